@@ -20,6 +20,8 @@ fi
 case $ID in
   C06|C07|C08|C14) PKG=lane ;;
   C19) PKG=c19 ;;
+  C04) PKG=c04 ;;
+  C11) PKG=c11 ;;
   C02) PKG=c02 ;;
   C12) PKG=c12; VARGS=(-const util/netutil:listSize=3) ;;
   *) infra "unknown property $ID" ;;
@@ -43,6 +45,14 @@ build() { # build <variant> <vinstr args...>  -> $WORK/check.<variant>
   go build "${MODFLAG[@]}" -overlay "$WORK/instr.$v/overlay.json" -o "$WORK/check.$v" ./checks/$PKG > "$WORK/build.$v.log" 2>&1 || { head -50 "$WORK/build.$v.log"; infra "instrumented build failed"; }
 }
 
+if [ "$ID" = C11 ]; then
+  build small -const util/netutil:listSize=3
+  grep -q CONST-NOT-FOUND "$WORK/vinstr.small.log" && infra "constant override not applicable: $(grep CONST-NOT-FOUND $WORK/vinstr.small.log)"
+  build real
+  "$WORK/check.small" -id C11 -tier "$TIER" -root "$ROOT" -variant small -part "$WORK/part.small" || exit $?
+  "$WORK/check.real" -id C11 -tier "$TIER" -root "$ROOT" -variant real -prev "$WORK/part.small"
+  exit $?
+fi
 build main "${VARGS[@]}"
 grep -q CONST-NOT-FOUND "$WORK/vinstr.main.log" && infra "constant override not applicable: $(grep CONST-NOT-FOUND $WORK/vinstr.main.log)"
 "$WORK/check.main" -id "$ID" -tier "$TIER" -root "$ROOT" -variant main "${REPLAY[@]}"
